@@ -122,14 +122,14 @@ void constructCommon(ModelSignature model,
             if (!infile.good()) throw std::runtime_error("missing main checkpoint");
             grid.read(infile, mode_binary);
             complete.read(infile);
-        }catch(std::runtime_error &){
+        }catch(std::exception &){
             // main file is missing or is corrupt, try the older version
             std::ifstream oldfile(filename_old, std::ios::binary);
             try{
                 if (!oldfile.good()) throw std::runtime_error("missing main checkpoint");
                 grid.read(oldfile, mode_binary);
                 complete.read(oldfile);
-            }catch(std::runtime_error &){
+            }catch(std::exception &){
                 // nothing could be recovered, start over from the current grid
             }
         }
